@@ -970,6 +970,23 @@ def _special_histories(author, rng, have):
         stored_all = [Obj(**{k2: (list(v2) if isinstance(v2, list) else v2) for k2, v2 in c.items()}) for c in pool2]
         out.append(("equal sets on two slots nobody refers to, then a new set",
                     [{"op": "setuprp", "cuwps": stored_all + [tw(free2[0]), tw(free2[-1])]}, {"op": "addtrigs", "trigs": [{"conds": [], "acts": [e], "players": [1]}]}], "single", False))
+    # objects carrying the LAST number of their table (location 255, unit-property set 64, switch 255)
+    acts = []
+    if 255 not in author.view["locs"] and len(author.view["locs"]) < 250:
+        last_loc = Obj(k="loc", x1=16, y1=32, x2=48, y2=64, name=b"last slot", idx=255, el=[True, False, True, False, True, False])
+        e = author.entry("a", 28)
+        e["args"] = [(a, (last_loc if v["k"] == "loc" else v)) for a, v in e["args"]]
+        acts.append(e)
+    if 64 not in used2 and len(used2) < 60:
+        last_cu = Obj(k="cuwp", hp=64, sp=64, ep=64, res=6464, hangar=0, flags=[False] * 5, unk=False, vs=[True] * 5 + [False], vu=[True] * 6 + [False], padding=0, idx=64)
+        e = author.entry("a", 11)
+        e["args"] = [(a, (last_cu if v["k"] == "cuwp" else v)) for a, v in e["args"]]
+        acts.append(e)
+    e = author.entry("a", 13)
+    last_sw = Obj(k="sw", name=None, idx=255)
+    e["args"] = [(a, (last_sw if v["k"] == "sw" else v)) for a, v in e["args"]]
+    acts.append(e)
+    out.append(("objects carrying the last number of their table", [{"op": "addtrigs", "trigs": [{"conds": [], "acts": acts, "players": [7]}]}], "single", False))
     # the same trigger added three times (hyper triggers): all three must be in the file
     t = author.trigger(nc=1, na=3, raw_p=0)
     out.append(("three identical triggers in one call", [{"op": "addtrigs", "trigs": [t, t, t]}], "single", False))
@@ -1070,6 +1087,13 @@ def degenerate_histories(author, rng):
                 for e in t["conds"] + t["acts"]:
                     e["args"] = [(a, (o if v["k"] == kind else v)) for a, v in e["args"]]
                 out.append(("%s carrying index %d" % (kind, b), [{"op": "addtrigs", "trigs": [t]}]))
+    # a switch referred to by number alone, with a number no switch has, in an ACTION (whose field is 32 bits wide,
+    # so only the range check of the switch table can stop it)
+    for b in (256, 300, 70000):
+        e = author.entry("a", 13)
+        ghost = Obj(k="sw", name=None, idx=b)
+        e["args"] = [(a, (ghost if v["k"] == "sw" else v)) for a, v in e["args"]]
+        out.append(("set-switch action on switch number %d (by number only)" % b, [{"op": "addtrigs", "trigs": [{"conds": [], "acts": [e], "players": [0]}]}]))
     # more new objects than slots (order of allocation is free: oracle only, no byte comparison with the model)
     many = []
     for i in range(70):
